@@ -220,20 +220,25 @@ theorem parseArguments_token (po : POps) (f : Nat) {s : Text} (h : TokenText s) 
     simp only [show (a == ',') = false from by simpa using ha.2.2.2.2.2.2.1, hlast, Bool.false_eq_true, if_false, Res.bind_ok]
     rw [h1, hfin]
 
+theorem unescLoop_plain : ∀ (s : Text), (∀ c ∈ s, tokChar c = true) → unescLoop s 0 0 false = (s, 0) := by
+  intro s
+  induction s with
+  | nil => intro _; rfl
+  | cons ch rest ih =>
+    intro h
+    obtain ⟨_, h2, h3, h4, h5, h6, _, h8, _, _⟩ := tokChar_facts (h ch (by simp))
+    have ihr := ih (fun c hc => h c (by simp [hc]))
+    unfold unescLoop
+    simp [h2, h3, h4, h5, h6, h8, ihr]
+
 /-- a token text on its own: `parse_term` hands it to `make_term` -/
 theorem parseTerm_token (po : POps) (f : Nat) {s : Text} (h : TokenText s) :
     parseTerm po (f + 1) s = makeTerm po f s (termFlags s).1 (termFlags s).2.1 (termFlags s).2.2 := by
   simp only [parseTerm, h.trim, checkArithmeticInfix_token h]
   simp only [show ((Infix.none == Infix.plus || Infix.none == Infix.minus || Infix.none == Infix.mul || Infix.none == Infix.div) = true) = False from by decide, if_false]
-  have hb : ∀ c ∈ s, c ≠ '\\' := fun c hc => (tokChar_facts (h.2 c hc)).2.2.2.2.2.2.2.1
-  clear h
-  have hc : s.contains '\\' = false := by
-    cases hcc : s.contains '\\' with
-    | false => rfl
-    | true =>
-      have := List.contains_iff_mem.mp hcc
-      exact absurd rfl (hb _ this)
-  simp only [hc, Bool.false_eq_true, if_false]
+  have hu : unescape s = (s, 0) := unescLoop_plain s h.2
+  rw [hu]
+  simp [checkQuotes, Res.bind]
 
 
 
